@@ -109,6 +109,28 @@ func planC15(tier string, seed int64) (*core.Plan, error) {
 		}
 		p.Stages = append(p.Stages, st)
 	}
+	// S7 once more, densely populated and always module-qualified: members that another module
+	// adds below a choice, leaf-lists of an imported grouping
+	{
+		f, err := fx.Load("S7")
+		if err != nil {
+			return nil, err
+		}
+		stores, _ := storesFor("S7")
+		p.Stages = append(p.Stages, core.Stage{Name: "S7-qualified", EvalMod: "EvalJson", EvalEnv: map[string]string{"SCHEMA": f.DSFile},
+			Cases: func(emit func(core.Case)) {
+				gp := gen.Default
+				gp.PLeaf, gp.PCont, gp.PList = 0.9, 0.95, 0.9
+				g := &gen.G{DS: f.DS, R: r, P: gp}
+				for i := 0; i < n/6+4; i++ {
+					t := g.Subtree(abs.Path{})
+					for _, at := range startSelections(f, t, r, 0) {
+						emit(core.Case{"kind": "jsonw", "fixture": "S7", "store": stores[r.Intn(len(stores))], "tree": t, "at": at,
+							"enumids": false, "qualify": true, "faults": false, "roundtrip": false})
+					}
+				}
+			}})
+	}
 	per := 1
 	if tier == "thorough" {
 		per = 6
